@@ -129,6 +129,8 @@ CFGS = {
     "ConsA": _c(N=3, MinAgree=2, Readd=False, OffPos=[0, 2], Wides=[False, True], UsableVals=[True, False], Bound=2),
     "ConsB": _c(N=3, MinAgree=1, Readd=False, OffPos=[0], LeapVals=["none", "59", "61", "unknown", "unsync"], Bound=0),
     "ConsC": _c(N=3, MinAgree=2, Readd=False, OffPos=[0], LeapVals=["none", "59", "unknown"], UsableVals=[True, False], Bound=0),
+    # a falseticker (usable, not selected) with a leap flag of its own: it must never decide a tie among the selected
+    "ConsL": _c(N=3, MinAgree=2, Readd=False, OffPos=[0, 3], LeapVals=["none", "61"], Bound=3),
     # interleavings of source-task operations with the controller loop
     "ChanA": _c(N=2, MaxChan=2, Ghosts=True, Readd=False, OffPos=[0, 2], UsableVals=[True, False], Bound=2),
     "ChanG": _c(N=1, MaxChan=2, Ghosts=True, OffPos=[0, 2], UsableVals=[True, False], Bound=2),
@@ -167,14 +169,14 @@ QUICK = {
     "C01": ["ThrA", "ThrB", "ThrC", "ThrL", "FrqA"],
     "C02": ["FrqA", "FrqC", "FrqD"],
     "C03": ["ConsA"],
-    "C04": ["ConsC"],
+    "C04": ["ConsC", "ConsL"],
     "C37": ["ChanS", "ChanG", "ChanA"],
 }
 THOROUGH = {
     "C01": ["ThrA", "ThrB", "ThrC", "ThrL", "ThrD", "FrqA", "FrqB"],
     "C02": ["FrqA", "FrqB", "FrqC", "FrqD", "ThrA"],
     "C03": ["ConsA", "ConsB", "ThrD"],
-    "C04": ["ConsC", "ConsB"],
+    "C04": ["ConsC", "ConsL", "ConsB"],
     "C37": ["ChanS", "ChanG", "ChanA", "ChanB", "ThrD", "ConsA"],
 }
 
